@@ -11,10 +11,14 @@ def run(ctx):
     from ahbicht.expressions.condition_expression_parser import parse_condition_expression_to_tree
     from ahbicht.models.condition_nodes import ConditionFulfilledValue as V
 
-    built, cases = c04.common(ctx, "Props/C07.vo")
+    built, cases = c04.common(ctx, "Props/C07.vo", extra_targets=["Corr/FcString.vo"], extra_gens=["Gen_grammar"])
     cases = cases + fc_deep_cases(ctx)
     # correspondence 1: node level (the collected expression string is compared character by character with `render`)
     raws = c04.correspondence(ctx, cases, "C07", levels=("node",))
+    # correspondence 1b: the string-level model of the builder itself (f-strings, strip, the bracket-stripping regex), on single calls
+    from vlib import fcbuilder
+
+    fcbuilder.builder_correspondence(ctx)
     # correspondence 2: the whole part (requirement evaluation, then format_constraint_evaluation of the collected string)
     with_fc = [(t, rho) for (t, rho), (tag, v) in zip(cases, raws) if tag == "ok" and getattr(v, "format_constraints_expression", None)]
     ctx.rng.shuffle(with_fc)
